@@ -32,8 +32,8 @@ type c11GNode struct {
 var (
 	c11ElNames   = []string{"a", "a", "b", "b", "c"}
 	c11AttrNames = []string{"k", "k", "m", "n"}
-	c11Values    = []string{"x", "1", "2", "x y", " x ", "10", "a", "", "é", "<&>", "3"}
-	c11Texts     = []string{"x", "1", "2", "x y", " x ", "10", "a", " ", "\n  ", "é", "<&>", "k", "3", "\"'"}
+	c11Values    = []string{"x", "1", "2", "x y", " x ", "10", "a", "", "é", "<&>", "3", "x  y", "a\tb"}
+	c11Texts     = []string{"x", "1", "2", "x y", " x ", "10", "a", " ", "\n  ", "é", "<&>", "k", "3", "\"'", "x  y", "a\tb"}
 	c11URIs      = map[string]string{"p": "urn:p", "q": "urn:q", "": "urn:d"}
 )
 
@@ -268,7 +268,7 @@ func c11NewXGen(t *rapid.T, d *c11DocGen) *c11XGen {
 		}
 	}
 	g.attrs = append(g.attrs, "k", "m", "p:k", "zz", "xmlns:p", "xmlns")
-	g.values = []string{"x", "1", "2", "x y", "10", "a", "", "3"}
+	g.values = []string{"x", "1", "2", "x y", "10", "a", "", "3", "x  y", "a\tb", " x ", "\n  "}
 	return g
 }
 
